@@ -75,7 +75,7 @@ def menu():
         add('scale=' + v, lambda a, v=v: a + ['--geo-scale=' + v])
     # repeated options: two scales (global, per tag then global, same tag twice), two motions with the same key
     for name, opts in (('scale2', ['--geo-scale=4', '--geo-scale=0.125']), ('scale-tag-global', ['--geo-scale=1.25,2', '--geo-scale=0.0254']),
-                       ('scale-tag-twice', ['--geo-scale=2,1', '--geo-scale=3,1']),
+                       ('scale-tag-twice', ['--geo-scale=2,1', '--geo-scale=0.5,1']),       # net factor 1: the structure stays what it is
                        ('samekey', ['--geo-rotate=1,0,0,30', '--geo-translate=1,0.5,0,0.25']), ('samekey-rev', ['--geo-translate=1,0.5,0,0.25', '--geo-rotate=1,0,0,30']),
                        ('rotate-twice-tag', ['--geo-rotate=2,0,0,45,2', '--geo-rotate=1,10,0,0,2', '--geo-translate=3,0,0,1'])):
         add(name, lambda a, opts=opts: a + opts)
